@@ -532,7 +532,9 @@ func ruleC13Pair(p *Program, r *Run) {
 						return true
 					}
 				case *ast.ReturnStmt:
-					if len(v.Results) == 2 && isNilIdent(info, v.Results[1]) {
+					// a return that does not hand back an error: the last result is nil, or there is none (named
+					// results, or a helper without an error result)
+					if len(v.Results) == 0 || isNilIdent(info, v.Results[len(v.Results)-1]) || TypeStr(info.TypeOf(v.Results[len(v.Results)-1])) != "error" && !types.Implements(info.TypeOf(v.Results[len(v.Results)-1]), errorIface()) {
 						bad = append(bad, "success return inside the loop at "+p.Pos(v.Pos()))
 					}
 				}
@@ -1080,4 +1082,9 @@ func (c *joinKindClient) Stmt(e *Engine, st *State, _ ast.Stmt) *State {
 		}
 	}
 	return nil
+}
+
+// errorIface: the built-in error interface.
+func errorIface() *types.Interface {
+	return types.Universe.Lookup("error").Type().Underlying().(*types.Interface)
 }
